@@ -64,6 +64,8 @@ class C06(Prop):
         # pretext-to-asm run again into a directory whose output files are longer than what it writes now
         for multi in (True, False):
             yield {"gen": "rerun-over-longer-files", "kind": "rerun", "multi": multi}
+        # the same run with an input FASTA whose FIRST record is empty (a header directly followed by the next)
+        yield {"gen": "rerun/empty-first-record", "kind": "rerun", "multi": True, "empty_first": True}
         for _ in range(10 if tier == "quick" else 150):
             which = rng.choice(["agp", "tpf"])
             a = T.gen_asm(rng, tpf_able=(which == "tpf"))
@@ -116,6 +118,8 @@ class C06(Prop):
         root = core.BUILD / self.pid / "cli"
         shutil.rmtree(root, ignore_errors=True)
         fa, agp = C.write_inputs(root / "in", case["multi"])
+        if case.get("empty_first"):
+            fa.write_text(">empty_0 nothing here\n" + fa.read_text())
         out = root / "out"
         out.mkdir(parents=True)
         args = ["-a", fa, "-p", agp, "-o", out / "x.fa", "--no-write-log"]
@@ -197,6 +201,15 @@ class C06(Prop):
                     w = f"not AGP text ({type(e).__name__}: {e})"
                 if w:
                     return f"{name}, written over a longer file of the same name: {w}"
+                if lengths is not None:
+                    ends_ = {}
+                    for ln in text.split("\n"):
+                        f_ = ln.split("\t")
+                        if len(f_) > 2 and not ln.startswith("#"):
+                            ends_[f_[0]] = int(f_[2])
+                    if ends_ != lengths:
+                        return (f"{name}: object ends {ends_} differ from the record lengths {lengths} of the FASTA "
+                                f"written with it")
                 if text != obs["first"].get(name):
                     return f"{name} differs from what the same run writes into an empty directory"
             return None
